@@ -158,10 +158,12 @@ def export_vti(
 
     if grid is not None:
         edges = [np.asarray(grid.edges(ax)) for ax in range(3)]
-        ox, oy, oz = float(edges[0][offset[0]]), float(edges[1][offset[1]]), float(edges[2][offset[2]])
+        # the extent below already starts at `offset`: VTK places point i at Origin + i * Spacing, so the origin must
+        # be the position of index 0, not of index `offset` (otherwise the block lands at twice the offset)
+        ox, oy, oz = float(edges[0][0]), float(edges[1][0]), float(edges[2][0])
         origin = f"{ox} {oy} {oz}"
     else:
-        origin = f"{offset[0] * resolution} {offset[1] * resolution} {offset[2] * resolution}"
+        origin = "0.0 0.0 0.0"
     extent = f"{offset[0]} {nx + offset[0]} {offset[1]} {ny + offset[1]} {offset[2]} {nz + offset[2]}"
     spacing = f"{resolution} {resolution} {resolution}"
 
